@@ -272,6 +272,11 @@ type Case struct {
 	Head    []*Node  `json:"head,omitempty"`
 	Body    []*Node  `json:"body,omitempty"`
 	Tags    []string `json:"tags,omitempty"`
+	// driver htmlreq: the redirecting URLs in front of the page (seed first), how each Location
+	// header spells the next URL (abs, pabs, net) and the redirect status codes
+	Chain []Ref    `json:"chain,omitempty"`
+	LocF  []string `json:"locf,omitempty"`
+	RSt   []int    `json:"rst,omitempty"`
 }
 
 func (c *Case) dom() *Node {
